@@ -38,6 +38,9 @@ def gen_case(rng):
         "x/svc.yaml": {"fmt": "yaml", "docs": [{"from": "x", "n": 1}]},
         "y/svc.yaml": {"fmt": "yaml", "docs": [{"from": "y", "n": 2}]},
         "y/svc.prod.yaml": {"fmt": "yaml", "docs": [{"prod": True}]},
+        # integral floats, and the same real file named several times under different extensions (one evaluation per
+        # argument: what one writer does to its input must not reach the next argument's file)
+        "fl.yaml": {"fmt": "yaml", "docs": [{"cpu": 4.0, "w": [1.0, 2.5, {"d": 2.0}], "n": 1, "s": "1.0"}]},
         "notes.txt": {"raw": "hello\n"},
         "x.ini": {"raw": "[s]\nk=v\n"},
     }
@@ -48,10 +51,15 @@ def gen_case(rng):
     samebase = ["x/svc.yaml", "y/svc.yaml", "x/svc.json", "y/svc.json", "y/svc.prod.yaml", "./x/svc.yaml", "y/../x/svc.yaml", "svc.yaml"]
     n = rng.randint(0, 8)
     args = []
+    if rng.random() < 0.12:
+        same = rng.choice([["fl.json", "fl.yaml"], ["fl.json-pretty", "fl.toml"], ["fl.jsonl", "fl.yml", "fl.json"], ["fl.yaml", "fl.json", "fl.toml"],
+                           ["t.json", "t.toml", "t.yaml"], ["svc.json", "svc.yaml", "svc.json"]])
+        args = list(same)
+        n = rng.randint(0, 3)
     for _ in range(n):
         r = rng.random()
         if r < 0.45:
-            args.append(rng.choice(WORDS))
+            args.insert(rng.randint(0, len(args)), rng.choice(WORDS))
         elif r < 0.7:
             args.append(rng.choice(fileargs))
         elif r < 0.85:
